@@ -8,7 +8,8 @@ pkg/goDB/storage/gpfile/gpdir.go) at the level of file-system operations, and of
 
 Abstraction (justified by property C01's theorem `read_after_sessions`: bytes beyond the committed
 offset are irrelevant and committed blocks stay readable): a column file is the list of write-out
-ids whose payload it physically holds; `.blockmeta` is the list of committed write-out ids; the
+ids whose payload it physically holds; stray `.tmp-metadata-*` files of interrupted writers are not
+represented (no reader or writer ever looks at them); `.blockmeta` is the list of committed write-out ids; the
 directory-name suffix is the seven summary numbers it encodes. A write-out is identified by its
 index in the history.
 -/
@@ -24,7 +25,6 @@ structure DayFs where
   named : Option Totals          -- summary encoded in the directory name (none = plain `<day>` name)
   metaIds : Option (List Nat)    -- ids listed in `.blockmeta` (none = no such file)
   cols : List (List Nat)         -- per column: ids physically stored, in file order
-  tmp : Nat                      -- stray `.tmp-metadata-*` files
   deriving Repr, DecidableEq
 
 structure Fs where
@@ -83,7 +83,7 @@ def keepLen (hist : List WriteOut) (ids : List Nat) (c : Nat) : Nat :=
   (ids.filter fun i => match hist[i]? with | some w => colNonEmpty w c | none => false).length
 
 def freshDay (iface : String) (day : Int) : DayFs :=
-  { iface := iface, day := day, named := none, metaIds := none, cols := List.replicate 8 [], tmp := 0 }
+  { iface := iface, day := day, named := none, metaIds := none, cols := List.replicate 8 [] }
 
 /-- operations before the commit point: directory creation, column appends, temp metadata file -/
 def preOps (hist : List WriteOut) (fs : Fs) (k : Nat) : List Op :=
@@ -125,8 +125,7 @@ def applyDay (hist : List WriteOut) (k : Nat) (base : List Nat) (d : DayFs) : Op
   | .writecol c =>
     -- the writer seeks to the committed offset: whatever a crashed predecessor left there is overwritten
     { d with cols := d.cols.mapIdx fun i ids => if i = c then ids.take (keepLen hist base c) ++ [k] else ids }
-  | .opentmp => { d with tmp := d.tmp + 1 }
-  | .renamemeta => { d with metaIds := some (base ++ [k]), tmp := d.tmp - 1 }
+  | .renamemeta => { d with metaIds := some (base ++ [k]) }
   | .renamedir => { d with named := some (totalsIds hist (d.metaIds.getD [])) }
   | _ => d
 
